@@ -95,7 +95,19 @@ def gen_expansion(tier, rng, prefix, count):
         n = cap + 1
         subs = ["D%d,0,1" % (k + 1) for k in range(n)]
         reads = ["R%d" % (k + 1) for k in range(n)]
-        v = ["highwater", "expire", "twobursts", "race", "busy_fire"][i % 5]
+        v = ["highwater", "expire", "twobursts", "race", "busy_fire", "race3"][i % 6]
+        if v == "race3":
+            # the pool is saturated (cap executors at a closed gate, the queue slot taken): several submitters overshoot the
+            # reservation counter at the same time and undo it; whatever the order, nothing more may be started
+            pre = ["D%d,0,1" % (k + 1) for k in range(cap + 1)] + ["W%d" % cap]
+            nsub = rng.choice([2, 3, 4])
+            ths = [pre + ["/", "D21,0,1", "/"] + ["R%d" % (k + 1) for k in range(cap + 1)] + ["R21"]]
+            for j in range(1, nsub):
+                ths.append(["/", "D%d,0,1" % (21 + j), "/", "R%d" % (21 + j)])
+            ths.append(["/"] + ["K%d" % (21 + j) for j in range(nsub)] + ["G1", "/"])
+            o = dict(expect_highwater=cap)
+            out.append(S("%s%d" % (prefix, i), ths, rnd(tier, rng, 1500, 8000), workers=workers, limit=limit, autostart=1, **o))
+            continue
         if v == "race":
             # two submitters compete for the last expansion slot while the queue is full
             pre = ["D%d,0,1" % (k + 1) for k in range(cap)]
